@@ -250,7 +250,7 @@ def r2(ctx, rep):
     rep.consult(m.loc(TOOLS, lb) + ' _limit_best')
     for name, fn_ref, limit in (('maxceil', max, 2), ('minfloor', min, 0)):
         fn = m.func(TOOLS, name)
-        for ln in range(0, 4):
+        for ln in range(0, 6 if rep.tier == 'thorough' else 4):
             for seq in itertools.product((0, 1, 2), repeat=ln):
                 r = it.safe(fn, [limit, iter(seq), 'DEFAULT'])
                 want = fn_ref(seq) if seq else 'DEFAULT'
